@@ -559,6 +559,10 @@ class NPModel(NSModel):
 
     def reduce(self, kind, a, axis, keepdims):
         I = _imp()
+        if isinstance(a, MaskedSel):
+            if kind in ("max", "min") and axis is None:
+                return a.extreme(kind)
+            raise I.Unsupported("reduction %s over a masked selection" % kind)
         if isinstance(a, (list, tuple)) or isinstance(a, np.ndarray):
             a = to_array(a)
         else:
@@ -900,6 +904,32 @@ class MaskedSel(object):
     def __init__(self, base, idx):
         self.base = base
         self.idx = idx
+
+    def _pairs(self):
+        I = _imp()
+        if isinstance(self.idx, tuple) or self.base.shape != self.idx.shape:
+            raise I.Unsupported("reduction over a partially indexed masked selection")
+        return [(I.to_term(m), as_exact(a)) for m, a in zip(self.idx.reshape(-1), self.base.reshape(-1))]
+
+    @property
+    def size(self):
+        I = _imp()
+        return fold(lambda x, y: x + y, [tm.mk_ite(m, tm.ONE, tm.ZERO) for m, _ in self._pairs()], tm.ZERO)
+
+    def extreme(self, kind):
+        """max / min over the selected elements; -inf / +inf when nothing is selected (numpy raises: callers guard with .size)."""
+        ps = self._pairs()
+        op = t_max if kind == "max" else t_min
+        empty = tm.mk_neg(tm.var("inf")) if kind == "max" else tm.var("inf")
+
+        def rec(i, cur):
+            if i == len(ps):
+                return empty if cur is None else cur
+            m, a = ps[i]
+            return t_ite(m, rec(i + 1, a if cur is None else op(cur, a)), rec(i + 1, cur))
+        if len(ps) > 8:
+            raise _imp().Unsupported("masked reduction over more than 8 elements")
+        return rec(0, None)
 
     @staticmethod
     def same_mask(m1, m2):
